@@ -432,6 +432,13 @@ def popped_without_default(spec, name):
     return any(op == f"N:{name}" for _, _, op in spec["levels"])
 
 
+def method_with_only_positional_only_parameters(spec):
+    """A method level (self / cls first) that forwards **kwargs and whose signature has positional-only parameters and
+    no named one: `def __init__(self, p=1, /, **kwargs)` - self itself is then a positional-only argument."""
+    kinds = gen.kinds_of(spec["root"], [l[0] for l in spec["levels"]])
+    return any(k != "F" and link != "T0" and gen.own_posonly(own) and not gen.own_names(own) for k, (link, own, _) in zip(kinds, spec["levels"]))
+
+
 def stacked_multi_use_levels(spec):
     """Two levels that each use their **kwargs more than once (pop/get + forwarding call, or two conditional calls):
     the upper grouping then sees the lower level's grouped - possibly 'conditional' - parameters."""
@@ -462,7 +469,10 @@ def missing_class(spec, views, name):
         return "bound-behind-method-call-on-local-instance"
     lay = spec.get("layout")
     top = spec["levels"][0]
-    if spec.get("entry") == "heir_file" and spec["root"] == "C" and top[0] == "super_skip" and i is not None and i >= 1:
+    # the first class level that is resolved with the entry class as parent: the root __init__, or the __init__ reached
+    # by cls(**kwargs) from the root classmethod
+    j = 0 if spec["root"] == "C" else 1 if spec["root"] == "K" and top[0] == "cls_call" and len(spec["levels"]) > 1 else None
+    if spec.get("entry") == "heir_file" and j is not None and spec["levels"][j][0] == "super_skip" and i is not None and i > j:
         # the entry class lives in a second file and inherits an __init__ that calls super(OtherClass, self).__init__:
         # OtherClass is a global of the file the __init__ is written in, not of the entry class's file
         return "below-super(OtherClass,self)-call-of-init-inherited-in-another-file"
@@ -576,6 +586,8 @@ def compare(spec, views, params, failed):
     ctx_txt = f"; offered {canon_params(params)}; " + "; ".join(f"sel {v['sel']}: required {sorted(v['required'])} accepted {sorted(v['accepted'])}" for v in views)
     if crashed and symptoms:
         shape = "stacked-multi-use-levels" if stacked_multi_use_levels(spec) else "other-shape"
+        if crashed[0][1] == "SourceNotAvailable" and method_with_only_positional_only_parameters(spec):
+            shape = "method-whose-only-parameters-before-**kwargs-are-positional-only"
         dev(
             f"ast-resolver-crash:{crashed[0][1]}:{shape}",
             f"get_parameters_from_ast raised {crashed[0][1]}: {crashed[0][2]}; fallback answer {canon_params(params)}; "
@@ -951,8 +963,8 @@ def round4_families(tier):
         dict(name="depth2/deferred-use-in-another-class", depths=[2], size="small" if quick else "mid", checks="full", same=False, link_filter=_has_deferred, aux=False, variants=_USE_ELSEWHERE),
         dict(name="depth3/deferred-use-in-another-class", depths=[3], size="tiny" if quick else "small", checks="resolve", same=False, link_filter=_quick_depth3_deferred, aux=False, variants=_USE_ELSEWHERE[:1] if quick else _USE_ELSEWHERE),
         dict(name="depth1-2/inherited-entry/second-file", depths=[1, 2], size="small" if quick else "mid", checks="full", same=False, roots=_CLASS_ROOTS, aux=False, variants=_INHERITED_ENTRY[1:]),
-        dict(name="depth1-2/inherited-entry/same-file", depths=[1, 2], size="small" if quick else "mid", checks="resolve" if quick else "full", same=False, roots=_CLASS_ROOTS, aux=False, variants=_INHERITED_ENTRY[:1]),
-        dict(name="depth3/inherited-entry/second-file", depths=[3], size="tiny" if quick else "small", checks="resolve", same=False, roots=_CLASS_ROOTS, link_filter=_plain_depth3 if quick else _quick_depth3, aux=False, variants=_INHERITED_ENTRY[1:]),
+        dict(name="depth1-2/inherited-entry/same-file", depths=[1, 2], size="small" if quick else "mid", checks="resolve", same=False, roots=_CLASS_ROOTS, aux=False, variants=_INHERITED_ENTRY[:1]),
+        dict(name="depth3/inherited-entry/second-file", depths=[3], size="tiny" if quick else "tiny4", checks="resolve", same=False, roots=_CLASS_ROOTS, link_filter=_plain_depth3 if quick else _quick_depth3, aux=False, variants=_INHERITED_ENTRY[1:]),
     ]
 
 
